@@ -91,6 +91,31 @@ MUTANTS = [
 ]
 
 
+def rule_loaded_tuples_counted(rep, sh):
+    """R3: the relation-level size the profile reports must be the size of the relation.  The per-relation timer wraps the rules and its
+    Logger reports GROWTH (size() - preSize, R2); the only absolute measurement is LogSize.  A relation can have been loaded (.input) before
+    its rules run (generateStratum loads first), so every profiled path of generateNonRecursiveRelation that wraps rules in the growth timer
+    must also measure the whole relation (LogSize on Main) -- otherwise the loaded tuples are missing from the reported size."""
+    f, paths = sh.paths('UnitTranslator', 'generateNonRecursiveRelation')
+    if f is None:
+        return
+    n, bad = 0, None
+    for p in paths:
+        if not S.guard_has(p, 'config().has(profile)') or S.guard_has(p, 'config().has(profile)', positive=False) or p.ret is None:
+            continue
+        tim = [x for x in S.subtrees(p.ret) if x[0] == 'mk' and x[1] == 'LogRelationTimer' and any(y[0] == 'call' and y[1] == 'tNonrecursiveRelation' for y in S.subtrees(x))]
+        siz = [x for x in S.subtrees(p.ret) if x[0] == 'mk' and x[1] == 'LogSize']
+        if tim:
+            n += 1
+            if not siz:
+                bad = p
+    ok = bad is None and n > 0
+    rep.ob('R3-loaded-tuples-are-counted', 'generateNonRecursiveRelation/relation-with-rules', ok, f.where,
+           '' if ok else 'a relation with rules is measured only by the growth its rules cause (LogRelationTimer); tuples loaded by .input before the rules run '
+           'are not in the reported size')
+    rep.floor('R3-relation-timer-paths', n, 1)
+
+
 def analyse(rep):
     eng, syn, lg = facts.extract([
         ('src/interpreter/Engine.cpp', r'interpreter/Engine\.cpp$', r'Engine::execute$', None, r'ram::(LogRelationTimer|LogTimer|DebugInfo|LogSize) &'),
@@ -101,6 +126,7 @@ def analyse(rep):
     rule_logger_delta(rep, lg)
     sh = S.Shapes(rep)
     S.rule_profile_roles(rep, sh)
+    rule_loaded_tuples_counted(rep, sh)
 
 
 def run(tier='quick'):
